@@ -8,7 +8,9 @@ package checks
 // acceptance (never INVAL, never a dropped connection, at least one byte).
 
 import (
+	"bytes"
 	"fmt"
+	"sync/atomic"
 	"testing"
 	"time"
 
@@ -25,6 +27,9 @@ type c23Case struct {
 	TS        int   `json:"transfer_size"`
 	RuntimeTS int   `json:"runtime_transfer_size"` // 0: not changed at runtime
 	Sel       []int `json:"sel"`                   // count selectors
+	// ShrinkDuring > 0: a WRITE of the advertised wtmax is parked at its first backend call, TransferSize is set to
+	// this value at runtime, then the WRITE goes on: it may store fewer bytes but has to say so
+	ShrinkDuring int `json:"shrink_during,omitempty"`
 }
 
 var c23Sizes = []int{1, 7, 512, 4096, 65536, 100000, 1 << 20, 1 << 22, 0}
@@ -35,6 +40,9 @@ func genC23(t *rapid.T) c23Case {
 		c.RuntimeTS = rapid.SampledFrom(c23Sizes[:8]).Draw(t, "rts")
 	}
 	c.Sel = rapid.SliceOfN(rapid.IntRange(0, 30), 3, 10).Draw(t, "sel")
+	if rapid.IntRange(0, 2).Draw(t, "shrink") == 0 {
+		c.ShrinkDuring = pick(t, "shrink_to", 1, 7, 512, 4096, 65536)
+	}
 	return c
 }
 
@@ -132,6 +140,7 @@ func runC23(tb stat.TB, c c23Case) {
 	}
 	fh := cr.Fh
 
+	wseq := 0
 	round := func(label string, ts int) bool {
 		rp, err := conn.call(nfsx.ProcFsinfo, nfsx.ProgNFS, nfsx.ArgsFh(root))
 		if err != nil {
@@ -151,9 +160,10 @@ func runC23(tb stat.TB, c c23Case) {
 			if cnt >= f.Wtpref || cnt == f.Wtmax {
 				nt = true
 			}
+			wseq++
 			data := make([]byte, cnt)
 			for i := range data {
-				data[i] = byte(i%251) | 1
+				data[i] = byte(i%251+wseq*17) | 1
 			}
 			rp, err := conn.call(nfsx.ProcWrite, nfsx.ProgNFS, nfsx.ArgsWrite(fh, 0, cnt, nfsx.FileSync, data))
 			if err != nil {
@@ -174,6 +184,9 @@ func runC23(tb stat.TB, c c23Case) {
 			}
 			if wr.Status != nfsx.OK || wr.Count < 1 || wr.Count > cnt {
 				return stat.Violate(tb, id, check, "write-within-wtmax-not-served", c, "%s WRITE of %d bytes replied %s count=%d", what, cnt, statusName(wr.Status), wr.Count)
+			}
+			if got, _, _ := v.PeekRead("/data", 0, int(wr.Count)); !bytes.Equal(got, data[:wr.Count]) {
+				return stat.Violate(tb, id, check, "write-count-claims-more-than-stored", c, "%s WRITE of %d bytes replied count=%d, but the first %d bytes of the backend file are not those bytes (first difference at %d)", what, cnt, wr.Count, wr.Count, firstDiff(got, data[:wr.Count]))
 			}
 		}
 		for _, cnt := range c23Counts(f.Rtmax, f.Rtpref, c.Sel) {
@@ -199,6 +212,67 @@ func runC23(tb stat.TB, c c23Case) {
 	}
 	if round("construction", c.TS) {
 		return
+	}
+	if c.ShrinkDuring > 0 {
+		rp, err := conn.call(nfsx.ProcFsinfo, nfsx.ProgNFS, nfsx.ArgsFh(root))
+		if err != nil {
+			tb.Fatalf("harness: FSINFO: %v", err)
+		}
+		if fi, err := nfsx.DecodeNFS3(nfsx.ProcFsinfo, rp.Body); err == nil && fi.Status == nfsx.OK && int(fi.Fsinfo.Wtmax) > c.ShrinkDuring {
+			cnt := fi.Fsinfo.Wtmax
+			var armed atomic.Bool
+			parked, gate := make(chan struct{}), make(chan struct{})
+			v.SetBefore(func(call *vfs.Call) {
+				if armed.CompareAndSwap(true, false) {
+					close(parked)
+					<-gate
+				}
+			})
+			wseq++
+			data := make([]byte, cnt)
+			for i := range data {
+				data[i] = byte(i%251+wseq*17) | 1
+			}
+			type wres struct {
+				rp  *nfsx.Reply
+				err error
+			}
+			done := make(chan wres, 1)
+			armed.Store(true)
+			go func() {
+				rp, err := conn.call(nfsx.ProcWrite, nfsx.ProgNFS, nfsx.ArgsWrite(fh, 0, cnt, nfsx.FileSync, data))
+				done <- wres{rp, err}
+			}()
+			select {
+			case <-parked:
+				n.UpdateTuningOptions(func(t *absnfs.TuningOptions) { t.TransferSize = c.ShrinkDuring })
+				close(gate)
+			case r := <-done:
+				armed.Store(false)
+				done <- r
+			case <-time.After(10 * time.Second):
+				close(gate)
+				tb.Fatalf("harness: WRITE neither parked nor finished")
+			}
+			r := <-done
+			v.SetBefore(nil)
+			what := fmt.Sprintf("[WRITE of wtmax=%d parked at its first backend call while TransferSize was set to %d at runtime]", cnt, c.ShrinkDuring)
+			if r.err != nil {
+				stat.Violate(tb, id, check, "connection-dropped-on-write-within-wtmax", c, "%s no reply: %v", what, r.err)
+				return
+			}
+			if wr, err := nfsx.DecodeNFS3(nfsx.ProcWrite, r.rp.Body); err == nil && r.rp.Stat == nfsx.MsgAccepted && r.rp.AcceptStat == nfsx.AcceptSuccess {
+				nt = true
+				if wr.Status == nfsx.OK {
+					if got, _, _ := v.PeekRead("/data", 0, int(wr.Count)); wr.Count > cnt || !bytes.Equal(got, data[:wr.Count]) {
+						stat.Violate(tb, id, check, "write-count-claims-more-than-stored", c, "%s replied count=%d, but the first %d bytes of the backend file are not those bytes (first difference at %d)", what, wr.Count, wr.Count, firstDiff(got, data[:min(int(wr.Count), len(data))]))
+						return
+					}
+				}
+				stat.Label("write_overlapped_runtime_shrink_"+statusName(wr.Status), 1)
+			}
+			c.TS = c.ShrinkDuring
+		}
 	}
 	if c.RuntimeTS > 0 {
 		n.UpdateTuningOptions(func(t *absnfs.TuningOptions) { t.TransferSize = c.RuntimeTS })
